@@ -13,7 +13,7 @@ from ..core import group
 THETA = {"implicit": 1.0, "backwardeuler": 1.0, "trapezoidal": 0.5, "cranknicolson": 0.5}
 TOL_STEP = 1e-5       # x max(1, CFL): floor of a sqrt(eps) finite-difference Jacobian; measured worst 5e-8 (normalised) over 4 seeds
 CFLS = [0.01, 0.1, 1.0, 10.0, 100.0]
-TOL_LARGE = 1e-6      # large linear systems, error / (max|Q| max(1, CFL)); measured worst 3e-9 over 150 cases (an incomplete LU gives 5e-7...4e-5 / CFL)
+TOL_LARGE = 5e-8      # large linear systems, error / (max|Q| max(1, CFL)); measured worst 8e-9 over 270 cases (finite-difference Jacobian round-off ~ sqrt(eps)); an incomplete LU gives 1e-8...4e-7
 
 
 def setup(ctx):
